@@ -393,6 +393,34 @@ class FactEngine(object):
                 for (fb, vb) in self.bool_cases(a if vc else b):
                     out.append((fc + fb, vb))
             return out
+        # std::tie(a1, .., an) == std::tie(b1, .., bn): the conjunction of the member-wise equalities
+        if k == 'CXXOperatorCallExpr' and callee(x) and callee(x)[0] == 'fn' and callee(x)[1].get('name') in ('operator==', 'operator!=') \
+                and len(call_args(x)) == 2:
+            def _tie_args(e_):
+                y = peel(e_)
+                while y is not None and y.get('kind') in ('MaterializeTemporaryExpr', 'CXXBindTemporaryExpr', 'ExprWithCleanups',
+                                                          'CXXConstructExpr') and len(kids(y)) == 1:
+                    y = peel(kids(y)[0])
+                if y is not None and y.get('kind') == 'CallExpr' and callee(y) and callee(y)[0] == 'fn' and \
+                        callee(y)[1].get('name') in ('tie', 'make_tuple', 'forward_as_tuple'):
+                    return call_args(y)
+                return None
+            ta, tb = _tie_args(call_args(x)[0]), _tie_args(call_args(x)[1])
+            if ta is not None and tb is not None and len(ta) == len(tb) and ta:
+                eq_cases = [([], True)]
+                for (p_, q_) in zip(ta, tb):
+                    kp, kq = self.key(p_), self.key(q_)
+                    nxt = []
+                    for (fs_, v_) in eq_cases:
+                        if v_ is True:
+                            nxt.append((fs_ + [canon('==', kp, kq)], True))
+                            nxt.append((fs_ + [canon('!=', kp, kq)], False))
+                        else:
+                            nxt.append((fs_, v_))
+                    eq_cases = nxt
+                if callee(x)[1].get('name') == 'operator!=':
+                    eq_cases = [(fs_, not v_) for (fs_, v_) in eq_cases]
+                return eq_cases
         is_test = (k == 'BinaryOperator' and x.get('opcode') in ('<', '<=', '>', '>=', '==', '!=')) or \
             (k == 'CXXOperatorCallExpr' and callee(x) and callee(x)[0] == 'fn' and
              callee(x)[1].get('name') in ('operator<', 'operator<=', 'operator>', 'operator>=', 'operator==', 'operator!='))
